@@ -41,7 +41,9 @@ class P:
         out = []
         for i in range(budget):
             p, hdr, samples = sfgen.gen_datagram(rng, directed=(i % 3 == 0))
-            for f in self.filters if len(self.filters) == 1 else [rng.choice(self.filters)]:
+            # (C07 itself: no filter mostly; one datagram in eight goes through a "flow samples only" / "counters only" collector:
+            #  what such a collector still delivers is decoded field-for-field all the same)
+            for f in ([rng.choice([(1,), (2,)])] if rng.random() < 0.125 else self.filters) if len(self.filters) == 1 else [rng.choice(self.filters)]:
                 line = "sflow %s%s" % ("".join("%d " % x for x in f), hx(p))
                 self.expect[line] = (hdr, samples, f)
                 out.append(line)
